@@ -134,7 +134,7 @@ func c08(c *evid.Ctx) {
 					}
 					return exp
 				}
-				kind := r.Intn(22)
+				kind := r.Intn(23)
 				switch kind {
 				case 0:
 					p.desc, p.msg, p.expect = "ping", srv.Query("ping", p.t, withArgs(benc.Dict{})), reply("r")
@@ -203,6 +203,8 @@ func c08(c *evid.Ctx) {
 						a = withArgs(benc.Dict{"target": r.ID()})
 					}
 					p.desc, p.msg, p.expect = "unknown method "+m, srv.Query(m, p.t, a), reply("e204")
+				case 22:
+					p.desc, p.msg, p.expect = "announce_peer valid token, neither port nor implied_port", srv.Query("announce_peer", p.t, withArgs(benc.Dict{"info_hash": r.ID(), "token": tok})), reply("r")
 				case 21:
 					// Non-queries: nothing may be sent in reaction.
 					switch r.Intn(5) {
